@@ -18,10 +18,12 @@ namespace Poetry.Marker
 open Poetry
 
 /-- the component facts of the pairing, at leaf truth `ev` and interpreter `p`:
-`G` the invariant of the operands and results, `F` the invariant of the intermediate `python_full_version`
+`G` the invariant of the operands, `Go` that of the results, `F` the invariant of the intermediate `python_full_version`
 markers, `T` what is known of the text of a merged single marker, `NC` the ranges the conversion returns -/
-structure PairCtx (ev : Leaf → Bool) (G F : Leaf → Prop) (T : Single → Prop) (NC : VC → Prop) (p : Version) :
+structure PairCtx (ev : Leaf → Bool) (G Go F : Leaf → Prop) (T : Single → Prop) (NC : VC → Prop) (p : Version) :
     Prop where
+  /-- the operands are admissible results -/
+  out : ∀ l, G l → Go l
   /-- `get_python_constraint_from_marker` on the `python_version` operand is exact at `p` -/
   gpc : ∀ (vm : Single) (nc : VC), G (.single vm) → vm.name = "python_version" → gpcLeaf (.single vm) = .ok nc →
     NC nc ∧ nc.allowsPlain p = ev (.single vm)
@@ -48,17 +50,17 @@ structure PairCtx (ev : Leaf → Bool) (G F : Leaf → Prop) (T : Single → Pro
     Leaf.beq (.single ms) (.single nm) = false → T ms
   /-- printing, rewriting and re-parsing a merged single marker keeps its meaning -/
   rewrite : ∀ (ms : Single) (r : M), F (.single ms) → T ms → parseItemMarker (pyRewrite ms) = .ok r →
-    M.Good G r ∧ M.sem ev r = ev (.single ms)
+    M.Good Go r ∧ M.sem ev r = ev (.single ms)
 
-variable {ev : Leaf → Bool} {G F : Leaf → Prop} {T : Single → Prop} {NC : VC → Prop} {p : Version}
+variable {ev : Leaf → Bool} {G Go F : Leaf → Prop} {T : Single → Prop} {NC : VC → Prop} {p : Version}
 
 /-- **`_merge_python_version_single_markers` is sound**, given the component facts. -/
-theorem mergePythonVersion_sound (C : PairCtx ev G F T NC p) (depth : Nat) (s1 s2 : Single) (im : Bool) (r : M)
+theorem mergePythonVersion_sound (C : PairCtx ev G Go F T NC p) (depth : Nat) (s1 s2 : Single) (im : Bool) (r : M)
     (h1 : G (.single s1)) (h2 : G (.single s2))
     (hpair : (s1.name = "python_version" ∧ s2.name = "python_full_version") ∨
              (s1.name = "python_full_version" ∧ s2.name = "python_version"))
     (h : mergePythonVersion depth s1 s2 im = .ok (some r)) :
-    M.Good G r ∧ M.sem ev r =
+    M.Good Go r ∧ M.sem ev r =
       (if im then (ev (.single s1) && ev (.single s2)) else (ev (.single s1) || ev (.single s2))) := by
   -- which operand is the python_version marker
   obtain ⟨vm, fm, hvf, hvm, hfm, hgv, hgf, hsem⟩ : ∃ vm fm,
@@ -93,7 +95,7 @@ theorem mergePythonVersion_sound (C : PairCtx ev G F T NC p) (depth : Nat) (s1 s
     by_cases hb : M.beq mm (.leaf (.single nm)) = true
     · rw [if_pos hb, pure_ok] at h
       cases h
-      refine ⟨by simpa using hgv, ?_⟩
+      refine ⟨by simpa using C.out _ hgv, ?_⟩
       -- the merged marker is the converted operand, which means the `python_version` operand
       cases mm with
       | leaf l =>
